@@ -53,6 +53,21 @@ def to_model(code, atoms):
     pending = []
     inner = code_consts(code)
     kw = None; prev_real = None
+    # STORE / UNPACK_SEQUENCE are modelled only as (parts of) the target of a FOR_ITER; anywhere else (an assignment expression) the
+    # model has no meaning for them
+    target_offsets = set()
+    def mark(p):
+        j = ins[p]
+        if j.opname in ('STORE_FAST', 'STORE_DEREF'): target_offsets.add(j.offset); return p + 1
+        if j.opname == 'UNPACK_SEQUENCE':
+            target_offsets.add(j.offset); p += 1
+            for _ in range(j.arg):
+                p = mark(p)
+                if p is None: return None
+            return p
+        return None
+    for k0, j0 in enumerate(ins):
+        if j0.opname == 'FOR_ITER' and k0 + 1 < len(ins): mark(k0 + 1)
     def emit(i, *items):
         for p in pending: first[p] = len(out)
         pending.clear()
@@ -119,6 +134,7 @@ def to_model(code, atoms):
             else: emit(i, ('unsupported', 'JUMP_BACKWARD to ' + (tgt[0].opname if tgt else '?')))
         elif n == 'GET_ITER': emit(i, ('nop',))
         elif n == 'FOR_ITER': emit(i, ('forIter',))
+        elif n in ('STORE_FAST', 'STORE_DEREF', 'UNPACK_SEQUENCE') and i.offset not in target_offsets: emit(i, ('unsupported', n + ' outside a loop target'))
         elif n in ('STORE_FAST', 'STORE_DEREF'): emit(i, ('store', atoms(i.argval)))
         elif n == 'UNPACK_SEQUENCE': emit(i, ('unpack', i.arg))
         elif n == 'YIELD_VALUE': emit(i, ('yield',))
@@ -1068,7 +1084,7 @@ TRANSPARENT_UNARY = ('neg', 'attr', 'isnone', 'isnotnone', 'attr2', 'bnot', 'pos
 TRANSPARENT_BINARY = ('lt', 'add', 'in', 'sub', 'callkw', 'ne', 'le', 'mul', 'notin', 'call2', 'meth', 'tuple2', 'list2', 'sliceto', 'gt', 'ge', 'subm', 'div', 'fdiv', 'mod', 'pow', 'shl', 'shr', 'band', 'bor', 'bxor', 'matmul', 'set2', 'dict2', 'dictk', 'kwstarcall')
 EXTRA = {'bnot': '~%s', 'pos': '+%s', 'attr2': '%s.q.r', 'ne': '%s != %s', 'le': '%s <= %s', 'mul': '%s * %s', 'notin': '%s not in %s',
          'call2': 'f(%s, %s)', 'meth': '%s.m(%s)', 'tuple2': '(%s, %s)', 'list2': '[%s, %s]', 'sliceto': '%s[:%s]',
-         'fstr': "f'v{%s}w'", 'fstr2': "f'{%s!r}{%s:>4}'", 'slice3': '%s[%s:%s:%s]', 'gen': '(y for y in %s if %s)', 'genq': '(y.p for y in %s)',
+         'fstr': "f'v{%s}w'", 'fstr2': "f'{%s!r}{%s:>4}'", 'slice3': '%s[%s:%s:%s]', 'slicetuple': '%s[%s:%s, %s]', 'slicetuple2': '%s[%s, :%s, %s:]', 'gen': '(y for y in %s if %s)', 'genq': '(y.p for y in %s)',
          'gt': '%s > %s', 'ge': '%s >= %s', 'subm': '%s - %s', 'div': '%s / %s', 'fdiv': '%s // %s', 'mod': '%s %% %s', 'pow': '%s ** %s',
          'shl': '%s << %s', 'shr': '%s >> %s', 'band': '%s & %s', 'bor': '%s | %s', 'bxor': '%s ^ %s', 'matmul': '%s @ %s',
          'set2': '{%s, %s}', 'dict2': "{'k': %s, 'j': %s}", 'dictk': '{%s: %s}', 'clist': '%s in [1, 2, 3]', 'ctuple': '%s in (1, 2)',
@@ -1143,12 +1159,12 @@ def rand_expr(rng, size, scope, value_pos=True):
         if k == 'gen':
             return (k, rand_expr(rng, i, scope, False), rand_expr(rng, size - 1 - i, scope + ['y'], False))
         return (k, rand_expr(rng, i, scope, False), rand_expr(rng, size - 1 - i, scope, k not in ('and', 'or')))
-    k = rng.choice(['ife', 'ife', 'ife', 'chain', 'slice', 'and3', 'or3', 'kw2'] + (['slice3'] if size > 4 else []))
-    n = 4 if k == 'slice3' else 3
+    k = rng.choice(['ife', 'ife', 'ife', 'chain', 'slice', 'and3', 'or3', 'kw2'] + (['slice3', 'slicetuple', 'slicetuple2'] if size > 4 else []))
+    n = 4 if k in ('slice3', 'slicetuple', 'slicetuple2') else 3
     cuts = sorted(rng.sample(range(1, size - 1), n - 1)) if size - 2 >= n - 1 else None
     if cuts is None: return rand_expr(rng, size, scope, value_pos) if size < 4 else ('ife',) + tuple(rand_expr(rng, 1, scope) for _ in range(3))
     sizes = [b - a for a, b in zip([0] + cuts, cuts + [size - 1])]
-    return (k,) + tuple(rand_expr(rng, max(1, s), scope, k in ('slice', 'slice3', 'kw2') and j > 0) for j, s in enumerate(sizes))
+    return (k,) + tuple(rand_expr(rng, max(1, s), scope, k in ('slice', 'slice3', 'slicetuple', 'slicetuple2', 'kw2') and j > 0) for j, s in enumerate(sizes))
 
 
 def rand_program(rng):
@@ -1530,6 +1546,14 @@ def run(ctx):
                     programs.append(one_clause(('a', 'x'), [z, E])); programs.append(one_clause(('a', 'x'), [E, z]))
                     programs.append(one_clause(E, [z])); programs.append(one_clause(('and', z, E), [])); programs.append(prog_of('lam', ('and', z, E)))
                     n_ife += 5
+        # ... with an `is None` / `is not None` test inside the test / body / else-branch
+        for test in ('isnone', 'isnotnone'):
+            for inner in (('a', 'b'), ('attr', ('a', 'b')), ('and', ('a', 'b'), ('a', 'c'))):
+                N = (test, inner)
+                for E in (('ife', N, g, h), ('ife', t, N, h), ('ife', t, g, N), ('ife', t, N, (test, g))):
+                    for c in (E, ('and', z, E), ('or', z, E), ('and', E, z), ('or', E, z), ('not', E), ('or3', z, E, ('a', 'w')), ('and3', z, E, ('a', 'w'))):
+                        programs.append(prog_of('cond', c)); n_ife += 1
+                    programs.append(one_clause(E, [z])); programs.append(prog_of('elt', ('or', E, z))); programs.append(prog_of('lam', ('or', E, z))); n_ife += 3
         # ... and the same with a constant operand inside the test / body / else-branch (`(b or 0) if a else c`): the folded operand
         # leaves a conditional jump that is not adjacent to its JUMP_BACKWARD
         shapes.__defaults__[0].clear()
@@ -1560,7 +1584,11 @@ def run(ctx):
         for kind in ('cond', 'elt', 'lam'): programs.append(prog_of(kind, (k, a_, b_)))
     for k in list(TERNARY) + ['and3', 'or3', 'kw2']:
         for kind in ('cond', 'elt', 'lam'): programs.append(prog_of(kind, (k, a_, b_, c_)))
-    for kind in ('cond', 'elt', 'lam'): programs.append(prog_of(kind, ('slice3', a_, b_, c_, d_)))
+    wal = ('walrus', b_)
+    for e in (('call1', wal), ('and', a_, ('call1', wal)), ('eq', wal, c_), ('and', wal, c_), ('ife', wal, c_, d_), ('tuple2', wal, ('a', 'w'))):
+        for kind in ('cond', 'elt', 'lam'): programs.append(prog_of(kind, e))
+    for k in ('slice3', 'slicetuple', 'slicetuple2'):
+        for kind in ('cond', 'elt', 'lam'): programs.append(prog_of(kind, (k, a_, b_, c_, d_)))
     programs.append({'lam': ('eq', ('a', 'p'), ('attr', ('a', 'q'))), 'params': 'p, q'})
     for tgt in ('x, x2', 'x, (x2, x3)', '(x, x2), x3', '(x, (x2, x3)), x4', '[x, x2]', 'x, a.t', 'x, a[0]', 'x, *x2'):
         programs.append({'elt': ('tuple2', ('a', 'x'), ('a', 'x2')), 'clauses': [{'target': tgt, 'iter': None, 'conds': [('a', 'x2')]}]})
